@@ -70,6 +70,8 @@ def _fails(v: "_V", *nodes: str) -> bool:
 
 
 def make_known_matcher(prop: str, job_name: str) -> Any:
+    if os.environ.get("VERIF_NO_KNOWN"):
+        return None
     entries = [e for e in load_known()
                if e.get("property") == prop and (job_name == e.get("job") or job_name in e.get("jobs", ()))]
     if not entries:
@@ -95,8 +97,9 @@ _COLLECTED: List[Tuple[str, Dict[str, Any]]] = []
 
 
 def _collect(rec: Any) -> None:
-    if sum(1 for l, _ in _COLLECTED if l == rec.label) < 3:
-        _COLLECTED.append((rec.label, rec.witness))
+    for lab in (rec.info.get("all_labels") or [rec.label]):
+        if sum(1 for l, _ in _COLLECTED if l == lab) < 3:
+            _COLLECTED.append((lab, rec.witness))
 
 
 def _run_part(arg: Tuple[str, str, str, int, int]) -> Dict[str, Any]:
@@ -107,9 +110,23 @@ def _run_part(arg: Tuple[str, str, str, int, int]) -> Dict[str, Any]:
         job = next(j for j in jobs.jobs_for(prop, "thorough") if j.name == job_name)
         fixed = job.part_list()[part_idx]
         fn = job.make()
-        # concrete warm-up (lazy imports, networkx argmap compilation) before tracing
+        # concrete warm-up (lazy imports, networkx argmap compilation) before tracing.  It is also one ordinary
+        # concrete execution of the harness on default values: a violation seen here is real (nothing symbolic is
+        # involved) and is reported as the job's counterexample.  This also covers behaviour CrossHair neutralises
+        # under tracing (e.g. functools.lru_cache is a pass-through while tracing).
         try:
-            fn(driver.Conc(dict(fixed)))
+            driver._reset_marks()
+            conc = driver.Conc(dict(fixed))
+            w_label, w_info = fn(conc)
+            w_labels = [l for l in (w_label if isinstance(w_label, (list, tuple)) else [w_label]) if l != "ok"]
+            matcher = make_known_matcher(prop, job.name)
+            bad = [l for l in w_labels if matcher is None or matcher(l, conc, w_info) is None]
+            if bad and not job.expect_refuted and not os.environ.get("VERIF_CONTINUE"):
+                wit = dict(conc.witness(), **fixed)
+                return {"job": job.name, "part": part_idx, "fixed": fixed, "status": "refuted", "exhausted": False,
+                        "paths_confirmed": 0, "paths_known": 0, "reason": "concrete warm-up run", "cpu_s": 0.0,
+                        "labels": {bad[0]: 1},
+                        "counterexample": {"label": bad[0], "witness": wit, "info": {"all_labels": w_labels}, "known": None}}
         except driver.AssumptionFailed:
             pass
         budget = job.budget_s * (float(os.environ.get("VERIF_BUDGET_SCALE", "1")))
@@ -140,9 +157,12 @@ def replay_concrete(prop: str, job_name: str, witness: Dict[str, Any]) -> Tuple[
     job = next(j for j in jobs.jobs_for(prop, "thorough") if j.name == job_name)
     fn = job.make()
     try:
-        return fn(driver.Conc(witness))
+        driver._reset_marks()
+        label, info = fn(driver.Conc(witness))
     except driver.AssumptionFailed:
-        return "<assumption failed>", {}
+        return ["<assumption failed>"], {}
+    labels = [l for l in (label if isinstance(label, (list, tuple)) else [label])]
+    return labels, info
 
 
 def main(argv: Optional[List[str]] = None) -> int:
@@ -161,14 +181,28 @@ def main(argv: Optional[List[str]] = None) -> int:
     if a.replay:
         with open(a.replay) as f:
             r = json.load(f)
-        label, info = replay_concrete(r["property"], r["job"], r["witness"])
-        print("replay job=%s label=%s (recorded %s)" % (r["job"], label, r["label"]))
-        if label != "ok" and label == r["label"]:
+        labels, info = replay_concrete(r["property"], r["job"], r["witness"])
+        print("replay job=%s labels=%s (recorded %s)" % (r["job"], labels, r["label"]))
+        if r["label"] in labels:
             print("VIOLATION property=%s replay=%s" % (r["property"], a.replay))
             return 1
         return 0
 
     t0 = time.time()
+    extra_seed_runs: List[Dict[str, Any]] = []
+    if a.tier == "thorough" and not a.jobs and not os.environ.get("VERIF_NO_EXTRA_SEEDS") and prop in HASHSEED_PROPS:
+        # string sets inside networkx (descendants_at_distance: notification order) follow PYTHONHASHSEED:
+        # the quick-tier jobs are repeated under two more hash seeds (separate interpreters, separate solver runs)
+        import subprocess
+
+        for hs in ("1", "2"):
+            env = dict(os.environ, PYTHONHASHSEED=hs, VERIF_NO_EXTRA_SEEDS="1")
+            r = subprocess.run([sys.executable, "-W", "ignore", "-m", "vf.cli", prop, "--tier", "quick", "--no-evidence"],
+                               env=env, cwd=VERIF, capture_output=True, text=True)
+            tail = [l for l in r.stdout.splitlines() if l.startswith(("VIOLATION", "HARNESS-ERROR", "INCONCLUSIVE", prop + " tier="))]
+            extra_seed_runs.append({"PYTHONHASHSEED": int(hs), "exit": r.returncode, "summary": tail[-3:]})
+            for l in tail:
+                print("[hashseed %s] %s" % (hs, l), flush=True)
     jl = jobs.jobs_for(prop, a.tier)
     if a.jobs:
         want = set(a.jobs.split(","))
@@ -190,11 +224,18 @@ def main(argv: Optional[List[str]] = None) -> int:
             print("  job=%s part=%s status=%s paths=%s known=%s cpu=%ss %s" % (
                 d.get("job"), d.get("part"), st, d.get("paths_confirmed"), d.get("paths_known"),
                 d.get("cpu_s"), (d.get("reason") or "")), flush=True)
-    return finish(prop, a.tier, seed, jl, results, time.time() - t0, write_evidence=not a.no_evidence)
+    rc = finish(prop, a.tier, seed, jl, results, time.time() - t0, write_evidence=not a.no_evidence,
+                extra_seed_runs=extra_seed_runs)
+    for e in extra_seed_runs:
+        rc = max(rc, e["exit"]) if e["exit"] in (1, 2) else rc
+    return rc
+
+
+HASHSEED_PROPS = {"C01", "C02", "C03", "C04", "C05", "C09", "C10", "C11", "C13", "C14", "C19"}
 
 
 def finish(prop: str, tier: str, seed: int, jl: List[Any], results: List[Dict[str, Any]], wall: float,
-           write_evidence: bool = True) -> int:
+           write_evidence: bool = True, extra_seed_runs: Optional[List[Dict[str, Any]]] = None) -> int:
     from . import jobs
 
     by_job: Dict[str, List[Dict[str, Any]]] = {}
@@ -251,7 +292,8 @@ def finish(prop: str, tier: str, seed: int, jl: List[Any], results: List[Dict[st
                 if p.get("status") != "refuted" or ce is None:
                     continue
                 # replay before reporting (concrete, un-traced, fresh harness)
-                label, _info = replay_concrete(prop, j.name, ce["witness"])
+                labels, _info = replay_concrete(prop, j.name, ce["witness"])
+                label = ce["label"] if ce["label"] in labels else (labels[0] if labels else "ok")
                 path = os.path.join(VERIF, "replay", "%s_%s_%s.json" % (prop, j.name, p.get("part")))
                 with open(path, "w") as f:
                     json.dump({"property": prop, "job": j.name, "label": ce["label"], "witness": ce["witness"],
@@ -287,8 +329,8 @@ def finish(prop: str, tier: str, seed: int, jl: List[Any], results: List[Dict[st
             if not any(j.name == jn for j in jobs.jobs_for(prop, "thorough")):
                 harness_errors.append("known finding %s names unknown job %s" % (e["id"], jn))
             continue
-        label, _ = replay_concrete(prop, jn, e["witness"])
-        if label == e["kind"]:
+        labels, _ = replay_concrete(prop, jn, e["witness"])
+        if e["kind"] in labels:
             kf_lines.append("KNOWN-FINDING: property=%s %s [%s job=%s kind=%s]" % (prop, e["what"], e["id"], jn, e["kind"]))
     for e in goals_missing:
         harness_errors.append(e)
@@ -304,7 +346,7 @@ def finish(prop: str, tier: str, seed: int, jl: List[Any], results: List[Dict[st
     elif harness_errors:
         rc = 2
     if write_evidence:
-        write_ev(prop, tier, seed, jobs_ev, violations, wall, kf_lines, harness_errors)
+        write_ev(prop, tier, seed, jobs_ev, violations, wall, kf_lines, harness_errors, extra_seed_runs or [])
     tot_paths = sum(j["paths_confirmed"] + j["paths_known"] for j in jobs_ev)
     print("%s tier=%s jobs=%d paths=%d z3_queries=%d wall=%.1fs -> %s" % (
         prop, tier, len(jobs_ev), tot_paths, sum(j["z3_queries"] for j in jobs_ev), wall,
@@ -335,7 +377,7 @@ GLOBAL_ASSUMPTIONS = [
 
 
 def write_ev(prop: str, tier: str, seed: int, jobs_ev: List[Dict[str, Any]], violations: int, wall: float,
-             kf_lines: List[str], harness_errors: List[str]) -> None:
+             kf_lines: List[str], harness_errors: List[str], extra_seed_runs: Optional[List[Dict[str, Any]]] = None) -> None:
     os.makedirs(os.path.join(VERIF, "evidence"), exist_ok=True)
     states = sum(j["paths_confirmed"] + j["paths_known"] for j in jobs_ev)
     samples = []
@@ -365,6 +407,9 @@ def write_ev(prop: str, tier: str, seed: int, jobs_ev: List[Dict[str, Any]], vio
             "known_findings_reproduced": kf_lines,
             "harness_errors": harness_errors,
             "inconclusive_jobs": [j["job"] for j in jobs_ev if j["status"] == "inconclusive"],
+            "python_hash_seed": int(os.environ.get("PYTHONHASHSEED", "0") or 0),
+            "extra_hash_seed_runs": extra_seed_runs or [],
+            "known_paths": sum(j["paths_known"] for j in jobs_ev),
         },
         "assumptions": GLOBAL_ASSUMPTIONS + sorted({a for j in jobs_ev for a in j["doc"].get("assumptions", [])}),
         "wall_s": round(wall, 2),
